@@ -308,3 +308,47 @@ pub fn run(tier: Tier) -> Report {
     rep.extra("channel_shim_selftest", super::selftest::channel_shim_selftest(tier));
     rep
 }
+
+/// `./check C10 quick --replay <file>`: re-execute exactly one recorded schedule of one scenario.
+pub fn replay(file: &serde_json::Value) -> i32 {
+    let r = &file["replay"];
+    let sc = &r["scenario"];
+    let batch: &'static str = match sc["batch"].as_str().unwrap_or("") {
+        "foreign1" => "foreign1",
+        "foreign2" => "foreign2",
+        "foreign-stored-id" => "foreign-stored-id",
+        "owned1" => "owned1",
+        "owned2" => "owned2",
+        _ => "owned3",
+    };
+    let scen = Scenario { shards: sc["shards"].as_u64().unwrap_or(1) as usize, batch, only_baked: sc["only_baked"].as_bool().unwrap_or(false), ntracks: sc["tracks"].as_u64().unwrap_or(4) as usize, iter: sc["consumed_through"].as_str() == Some("into_iter()") };
+    let fine = sc["granularity"].is_string();
+    let choices: Vec<usize> = r["schedule"]["choices"].as_array().map(|a| a.iter().map(|x| x.as_u64().unwrap_or(0) as usize).collect()).unwrap_or_default();
+    let (exp_ok, exp_err, _) = expected(&scen);
+    let cfg = sched::ExploreCfg { mode: if fine { sched::Mode::Fine } else { sched::Mode::Macro }, window: (1, 1), ..Default::default() };
+    let sc2 = scen.clone();
+    let f = std::sync::Arc::new(move || run_scenario(&sc2));
+    let a = sched::run_one(&cfg, &choices, &f);
+    let b = sched::run_one(&cfg, &choices, &f);
+    println!("scenario {scen:?}\nschedule {}", a.schedule_json());
+    match (&a.outcome, &b.outcome) {
+        (sched::Outcome::Done(x), sched::Outcome::Done(y)) => {
+            if x != y {
+                machinery_error("replay is not deterministic");
+            }
+            println!("observed pairs {:?}, errors {}; expected pairs {:?}, errors {exp_err}", x.oks.iter().map(|i| (i.0, i.1)).collect::<Vec<_>>(), x.errs, exp_ok.iter().map(|i| (i.0, i.1)).collect::<Vec<_>>());
+            if x.oks != exp_ok || x.errs != exp_err {
+                println!("VIOLATION property=C10 replay=(replayed) the recorded schedule still violates the property");
+                1
+            } else {
+                println!("the recorded schedule no longer violates the property");
+                0
+            }
+        }
+        (sched::Outcome::Machinery(m), _) => machinery_error(&format!("the recorded schedule does not fit the current code: {m}")),
+        (o, _) => {
+            println!("VIOLATION property=C10 replay=(replayed) outcome {o:?}");
+            1
+        }
+    }
+}
